@@ -60,7 +60,7 @@ T = {
          "Every generated program is compiled repeatedly; rapid state-machine histories of compilations must give the results a fresh process gives for each compilation run first; each top-level statement compiled alone must emit the same block (modulo hoisted label numbering) as inside the full file.",
          "Trusted: fresh-process helper (the test binary re-executing itself); map-order nondeterminism is found only with probability 1-2^-k per affected case.", "DESIGN.md 10/C17"),
  "C18": ("robustness fuzzing: rapid token soup / mutation of valid programs, exhaustive one-edit neighbourhood of template programs, native coverage-guided go test -fuzz in thorough",
-         "Token soup over the full vocabulary, mutated valid programs, the complete one-edit neighbourhood (deletion, duplication, swap, truncation, bracket-group emptying, replacement by / insertion of 40 hostile words) of 35 template programs covering every production, truncations, deep nesting and hostile constants under all option combinations in normal and lint mode: no panic, token budget (verif hook) not exceeded, result is output or a ParseError with 1<=start<=end<=lines, lint accepts whatever normal accepts and never fails for missing switches/fonts. Thorough adds a 4-minute native fuzz campaign.",
+         "Token soup over the full vocabulary, mutated valid programs, the complete one-edit neighbourhood (deletion, duplication, swap, truncation, bracket-group emptying, replacement by / insertion of 40 hostile words) of 42 template programs (35 valid ones, one per production, and 7 near misses) covering every production, truncations, deep nesting and hostile constants under all option combinations in normal and lint mode: no panic, token budget (verif hook) not exceeded, result is output or a ParseError with 1<=start<=end<=lines, lint accepts whatever normal accepts and never fails for missing switches/fonts. Thorough adds a 4-minute native fuzz campaign.",
          "Trusted: token budget hook as the definition of 'bounded work'; inputs that are not valid UTF-8 are filtered before the compiler.", "DESIGN.md 10/C18"),
  "C19": ("lexeme-model oracle under two random layouts + metamorphic compile under layout change; native fuzz in thorough",
          "Generated lexeme sequences over every token class printed under two independent random layouts: both must lex to the intended (type, literal) sequence, with line/byte/rune columns equal to the printer's record and end = start + length for single-line tokens; valid programs under two layouts compile identically.",
